@@ -54,7 +54,7 @@ func ZZ_C14_fp448_asm_addsub() {
 	zzAssert(zzWCong(zzWLE(y[:]), d, zzP), "assembly addsub: y' = x-y mod p")
 }
 
-//zz: prop=C14 tier=quick backend=lia timeout=900
+//zz: prop=C14 also=C12 tier=quick backend=lia timeout=900
 func ZZ_C14_fp448_asm_mul_legacy() {
 	x, y, z := zzElt("x"), zzElt("y"), new(Elt)
 	want := zzWMulLimbs(x[:], y[:])
@@ -62,7 +62,7 @@ func ZZ_C14_fp448_asm_mul_legacy() {
 	zzAssert(zzWCong(zzWLE(z[:]), want, zzP), "assembly product congruent to x*y mod p")
 }
 
-//zz: prop=C14 tier=thorough backend=lia timeout=1800
+//zz: prop=C14 also=C12 tier=quick backend=lia timeout=1800
 func ZZ_C14_fp448_asm_mul_bmi2adx() {
 	x, y, z := zzElt("x"), zzElt("y"), new(Elt)
 	want := zzWMulLimbs(x[:], y[:])
